@@ -99,6 +99,7 @@ theorem exec_loadActuals (K : PCtx) (wf : K.WF) : ∀ (es : List X.Expr) (fuel :
           have hA := expr_pure_correct K wf f e st v s1 hpe h1
           obtain ⟨b1, mem1, st1, rep1, frm1⟩ := hA gs c gs1 i a b mem hg1 hat.left hr
             (by have := e2.2.1; omega) hnl (hci.of_eff e2)
+          rw [hiB_true] at frm1
           -- store into the parameter slot
           have hmid : K.low [iLDBM SP_OFFSET, iSTAI (p : Int)] = [.imm 0x1 1, .imm 0x8 (p : Int)] := rfl
           rw [hmid] at hat ⊢
